@@ -43,14 +43,14 @@ def showDOut (o : DOut) : String :=
 
 def handle (line : String) : String :=
   match words line with
-  | ["msg", limit, fuel, kinds, ids] =>
-    match limit.toNat?, fuel.toNat?, parseKinds kinds, parseNats ids with
-    | some l, some f, some ks, some h => showOut (run h f ks (Iter.init l))
+  | ["msg", limit, fuel, kinds, ids, empties] =>
+    match limit.toNat?, fuel.toNat?, parseKinds kinds, parseNats ids, parseNats empties with
+    | some l, some f, some ks, some h, some es => showOut (run h f ks { Iter.init l with emptyIds := es })
+    | _, _, _, _, _ => "bad-op"
+  | ["script", limit, fuel, pages, empties] =>
+    match limit.toNat?, fuel.toNat?, (if pages == "-" then some [] else (pages.splitOn ";").mapM parsePage), parseNats empties with
+    | some l, some f, some ps, some es => showOut (runS (scriptServer ps) f 0 { Iter.init l with emptyIds := es })
     | _, _, _, _ => "bad-op"
-  | ["script", limit, fuel, pages] =>
-    match limit.toNat?, fuel.toNat?, (if pages == "-" then some [] else (pages.splitOn ";").mapM parsePage) with
-    | some l, some f, some ps => showOut (runS (scriptServer ps) f 0 (Iter.init l))
-    | _, _, _ => "bad-op"
   | ["dlg", limit, cap, fuel, kinds, ds] =>
     match limit.toNat?, cap.toNat?, fuel.toNat?, parseKinds kinds, parseDlgs ds with
     | some l, some cap, some f, some ks, some d => showDOut (drun d f ks cap (DIter.init l))
